@@ -40,7 +40,7 @@ ASSUMPTIONS = [
     "durability model B: bytes written since the last flush / seek / truncate may be lost entirely or partially (any prefix)",
     "a restart document 'describes the latest state' if it decodes with ASE's JSON codec and carries the current step counter and atom count",
 ]
-REQUIRED = {"observer_calls_checked": 150, "cut_points": 400, "real_kills": 20, "restart_docs_shrunk": 3, "restart_docs_grown": 3, "frames_parsed": 100, "log_rows_checked": 50}
+REQUIRED = {"logs_with_earlier_content": 4, "observer_calls_checked": 150, "cut_points": 400, "real_kills": 20, "restart_docs_shrunk": 3, "restart_docs_grown": 3, "frames_parsed": 100, "log_rows_checked": 50}
 SHARD_TIMEOUT = {"quick": 900, "thorough": 3000}
 
 
@@ -242,6 +242,8 @@ def judge_run(rec: Rec, oplog, wit0, driver):
             if kind == "log":
                 rows["log"] += 1
                 rec.count("log_rows_checked")
+                if rows["log"] == 1 and not header_done:
+                    rec.viol("C16/log/header-missing", "the first row was written although the run's header had not been written", wit)
                 lines = m.content.split("\n")
                 if not m.content.endswith("\n") or len(lines) - 1 != rows["log"] + (1 if header_done else 0):
                     rec.viol("C16/log/not-one-line-per-call", f"log has {len(lines) - 1} complete lines after {rows['log']} calls (+header={header_done})", wit)
@@ -323,6 +325,12 @@ def run_model(spec, rec):
     state = {}
     OPLOG.clear()
     files = {"log": OpFile("log"), "traj": OpFile("traj"), "rst": OpFile("rst")}
+    if spec["s"] % 2 == 1 or spec.get("fmode") == "w" and spec["li"] == 3:
+        # the log stream already holds something when the simulation gets it (a comment written by the script, the log
+        # of an earlier stage): this run's header and rows follow it
+        files["log"].write("# stage 2 of the workflow, appended to the log of stage 1\n")
+        rec.count("logs_with_earlier_content")
+        OPLOG.clear()  # what is judged is what this run adds after it
     kw = {"logfile": files["log"], "trajectory": files["traj"], "logging_interval": spec["li"], "logging_mode": spec.get("fmode", "a")}
     if not w["driver"].endswith("ForceBias"):
         kw["restart_file"] = files["rst"]
